@@ -5,10 +5,13 @@ import glob, json, os
 V = os.path.dirname(os.path.dirname(os.path.abspath(__file__)))
 props = [json.loads(l)["id"] for l in open(os.path.join(V, "properties.jsonl"))]
 base = json.load(open("/root/.vp/BASELINE.json"))
+# checks/claimed.txt: the properties whose checks are finished and reviewed (one id per line)
+claimed = set(open(os.path.join(V, "checks", "claimed.txt")).read().split())
 checks = {}
 for f in sorted(glob.glob(os.path.join(V, "checks", "C*.manifest.json"))):
     c = json.load(open(f))
-    checks[c["property_id"]] = c
+    if c["property_id"] in claimed:
+        checks[c["property_id"]] = c
 na_file = os.path.join(V, "checks", "not_applicable.json")
 na_reasons = json.load(open(na_file)) if os.path.exists(na_file) else {}
 man = {
